@@ -34,7 +34,7 @@ class HarnessError(Exception):
     """The harness (not the code under test) is wrong or unsupported."""
 
 
-class PathTimeout(Exception):
+class PathTimeout(BaseException):
     """Raised by the per-path watchdog (code under test did not quiesce)."""
 
 
